@@ -17,7 +17,9 @@ import (
 	"gosx/interp"
 )
 
-const repoDir = "/repo"
+// repoDir is the tree under verification. VERIF_REPO points a development run at a scratch worktree;
+// every registered command uses /repo.
+var repoDir = "/repo"
 
 var verifDir = "/verif"
 
@@ -59,6 +61,9 @@ func main() {
 	}
 	if d := os.Getenv("VERIF_DIR"); d != "" {
 		verifDir = d
+	}
+	if d := os.Getenv("VERIF_REPO"); d != "" {
+		repoDir = d
 	}
 	switch os.Args[1] {
 	case "explore":
